@@ -55,7 +55,7 @@ def _event(p, kind, value="x", device="D", vector="V", element="E", label=None):
     return Obj(ci, a, label=label or f"event:{kind}:{value}")
 
 
-def simulate(p, kwargs, script, poll_flags=None):
+def simulate(p, kwargs, script, poll_flags=None, second=None, event_flags=None):
     """Abstractly run client.waitforevent(**kwargs).  'script' = actions performed when the waiter blocks:
     ('event', Obj) deliver through trigger_event; ('task', i) run the i-th pending task to completion.
     -> list of result dicts (one per explored path)."""
@@ -106,6 +106,14 @@ def simulate(p, kwargs, script, poll_flags=None):
                         o.attrs["flag"] = Const(False)
                         return Const(None)
                     if m == "is_set":
+                        if it_.in_task is not None and event_flags is not None and flags.index(o) in event_flags:
+                            # what a task reads from the completion flag of the wait with this index, read after read
+                            seq = event_flags[flags.index(o)]
+                            k = it_.__dict__.setdefault("_ef", {}).setdefault(flags.index(o), [0])
+                            v = seq[min(k[0], len(seq) - 1)]
+                            k[0] += 1
+                            it_.trace.append(("is_set", flags.index(o), v))
+                            return Const(v)
                         if it_.in_task is not None and poll_flags is not None and it_.in_task == poll_flags[0]:
                             seq = poll_flags[1]
                             k = it_.__dict__.setdefault("_pf", [0])
@@ -146,6 +154,17 @@ def simulate(p, kwargs, script, poll_flags=None):
             it.result = ("return", v)
         except _Blocked:
             it.result = ("blocked", None)
+        if second is not None:
+            # a second wait started while the first is still blocked (another task of the application), then every
+            # background task that exists is run
+            it.tasks_first = len(it.tasks)
+            try:
+                v = it.run_function(Fn(f, client), [], dict(second))
+                it.result2 = ("return", v)
+            except _Blocked:
+                it.result2 = ("blocked", None)
+            for i in range(len(it.tasks)):
+                run_task(it, i)
         return Const(None)
 
     o = client_opts(p)
@@ -365,6 +384,32 @@ def rule_poll(ctx):
                 if not okm or show(gd) != repr(dev) or show(gn) != repr(vec) or "version" not in kwm:
                     ctx.violated("C17.POLL", f.short, f"the poll request is {show(m)[:80] if m is not None else None}, expected getProperties(version, device={dev!r}, name={vec!r})", fi=f, text=f"request:{dev}:{vec}")
                     bad = True
+    # two waits on the same property at the same time (two tasks of the application), each with polling: when the first
+    # has completed and the second is still pending, the second's request must keep being re-sent at ITS delay/interval
+    for dev, vec in (("D", "V"), ("D", None), (None, None)):
+        kw1 = {"expect": Const("x"), "polling_enabled": Const(True), "polling_delay": Const(2), "polling_interval": Const(3)}
+        kw2 = {"expect": Const("y"), "polling_enabled": Const(True), "polling_delay": Const(5), "polling_interval": Const(7)}
+        for kw in (kw1, kw2):
+            if dev is not None:
+                kw["device"] = Const(dev)
+            if vec is not None:
+                kw["vector"] = Const(vec)
+        rs = simulate(p, kw1, [], second=kw2, event_flags={0: [True], 1: [False, False, True]})
+        r = _one(ctx, "C17.POLL", f, rs, f"two concurrent waits device={dev} vector={vec}")
+        if r is None:
+            bad = True
+            continue
+        n += 1
+        it_ = r["interp"]
+        if r["outcome"] != "blocked" or getattr(it_, "result2", ("?",))[0] != "blocked":
+            ctx.violated("C17.POLL", f.short, f"two concurrent waits on device={dev} vector={vec}: a wait does not block while nothing happens ({r['outcome']}, {getattr(it_, 'result2', None)})", fi=f, text=f"concurrent-block:{dev}:{vec}")
+            bad = True
+            continue
+        sl = sorted(show(d) for who, d in r["sleeps"])
+        nsend = len(r["sends"])
+        if nsend != 2 or sl != sorted(["2", "5", "7", "7"]):
+            ctx.violated("C17.POLL", f.short, f"two waits on the same property (device={dev}, vector={vec}) at the same time, the first already completed, the second still pending for two polling turns: {nsend} re-requests are sent and the pollers sleep {sl}; expected 2 re-requests for the pending wait at its own delay 5 and interval 7 (and only the delay 2 of the completed one): a pending wait is left without its poller", fi=f, text=f"concurrent:{dev}:{vec}", witness="waitforevent(expect='x', delay 2, interval 3) and waitforevent(expect='y', delay 5, interval 7) on one property")
+            bad = True
     ctx.counters["C17.POLL:scenarios"] = n
     if not bad:
         ctx.holds("C17.POLL", f.short, f"{n} scenarios: sleep(polling_delay); while the wait is pending: send getProperties(device, name); sleep(polling_interval)", fi=f)
